@@ -8,6 +8,7 @@
 mod out;
 mod rng;
 mod suite_c;
+mod suite_f;
 mod suite_p;
 mod suite_t;
 
@@ -36,6 +37,7 @@ fn main() {
             let lines = match suite.as_str() {
                 "T" => suite_t::gen(&mut rng, &suite_t::Params { cases, max_ops }),
                 "C" => suite_c::gen(&mut rng, &suite_c::Params { cases }),
+                "F" => suite_f::gen(&mut rng, &suite_f::Params { cases }),
                 "P" => suite_p::gen(&mut rng, &suite_p::Params { cases, big: max_ops }),
                 _ => {
                     eprintln!("unknown suite {}", suite);
@@ -58,6 +60,7 @@ fn main() {
                 "T" => suite_t::exec(&lines, &mut out, &scratch),
                 "C" => suite_c::exec(&lines, &mut out),
                 "P" => suite_p::exec(&lines, &mut out),
+                "F" => suite_f::exec(&lines, &mut out, &scratch),
                 _ => {
                     eprintln!("unknown suite {}", suite);
                     std::process::exit(2);
